@@ -1199,6 +1199,28 @@ static void fam_c18_purge(G& g, Plan& p) {
     P.ops.push_back(mk(OP_purge_check, -1, 1, (uint64_t)rounds, w1 * (uint64_t)rounds));
     return;
   }
+  // abandoned: the pages belong to a thread that has left (one block of it stays live, so its segment stays abandoned and in use); the main thread frees
+  // the others and goes on with non-forced collects, whose visits release the emptied pages and, a delay later, have to purge them
+  if (W != 1 && delay > 0 && g.chance(0.2)) {
+    P.ops.clear(); p.progs.resize(2); Program& P0 = p.progs[0]; Program& T1 = p.progs[1]; T1.explicit_done = g.chance(0.5);
+    P0.ops.push_back(mk(OP_malloc, 100, 64));
+    int n = 4 + (int)g.below(8);
+    for (int i = 0; i < n; i++) T1.ops.push_back(mk(OP_malloc, i, 200 * KiB + g.below(800 * KiB)));
+    P0.ops.push_back(mk(OP_spawn, 1)); P0.ops.push_back(mk(OP_join, 1));
+    const int keep = (int)g.below((uint64_t)n);
+    for (int i = 0; i < n; i++) if (i != keep) { Op o = mk(OP_free, i); o.flags = OPF_WATCH; P0.ops.push_back(o); }
+    uint64_t sw = (uint64_t)delay + (uint64_t)ext * (uint64_t)(n + 4) + 2;
+    int rounds = 5;
+    for (int r = 0; r < rounds; r++) {
+      P0.ops.push_back(mk(OP_collect, -1, 0));
+      for (int i = 0; i < 3; i++) P0.ops.push_back(mk(OP_malloc, 101 + i, 48 + g.below(16)));
+      for (int i = 0; i < 3; i++) P0.ops.push_back(mk(OP_free, 101 + i));
+      P0.ops.push_back(mk(OP_advance, -1, sw + g.below(5)));
+    }
+    P0.ops.push_back(mk(OP_collect, -1, 0));
+    P0.ops.push_back(mk(OP_purge_check, -1, 1 | 8, 4, sw * 4));
+    return;
+  }
   // segfree: pages of a segment are freed in two batches with the segment's own purge in between, then nothing of the segment is left: it goes back
   // to its arena partly committed, and what is still committed has to be purged by the arena (after its delay) through ordinary activity
   if (W != 1 && delay >= 0 && g.chance(0.35)) {
@@ -1487,6 +1509,7 @@ static void fam_c04_dirty(G& g, Plan& p) {
 static void fam_c04_hugeslack(G& g, Plan& p) {
   p.nslots = 20; p.progs.resize(1); Program& P = p.progs[0];
   set_env(p, "PURGE_DELAY", g.pick({10, 100, -1}));      // freed arena blocks are not purged right away
+  if (g.chance(0.5)) set_env(p, "PURGE_DECOMMITS", 0);   // reset mode: a purge is an MADV_FREE, after which the old contents may still be there
   p.cfg.madv_free_mode = 0;
   int rounds = 1 + (int)g.below(3);
   for (int r = 0; r < rounds; r++) {
@@ -2047,6 +2070,17 @@ static void fam_c15_reclaim_route(G& g, Plan& p) {
     for (int i = 0; i < n / 3; i++) P.ops.push_back(mk(OP_free, (t - 1) * 40 + (int)g.below((uint64_t)n)));
   }
   for (int t = 1; t <= nleave; t++) P0.ops.push_back(mk(OP_join, t));
+  if (g.chance(0.3)) {
+    // the free route: with reclaim-on-free a thread takes an abandoned segment over when it frees a block in it - into its default heap. Here the
+    // default heap is the arena-bound one, and the segments of the threads that left lie outside its arena: they must not be adopted by it
+    set_env(p, "ABANDONED_RECLAIM_ON_FREE", 1);
+    P0.ops.push_back(mkh(OP_heap_set_default, 0));
+    for (int t = 1; t <= nleave; t++) for (int i = 0; i < 3; i++) P0.ops.push_back(mk(OP_free, (t - 1) * 40 + (int)g.below(6)));
+    for (int i = 0; i < 60; i++) { Op o = mk(OP_malloc, 120 + i, cls[g.below(cls.size())]); o.hslot = g.chance(0.5) ? 0 : -1; o.flags = OPF_MAY_FAIL; P0.ops.push_back(o); }   // -1: the default-heap API, i.e. the bound heap as well
+    for (int i = 0; i < 12; i++) P0.ops.push_back(mk(OP_check_owner, (int)g.below(80)));
+    P0.ops.push_back(mk(OP_verify_all));
+    return;
+  }
   // the asking heap needs fresh segments: it reclaims
   int nb = 3 + (int)g.below(8);
   for (int i = 0; i < nb; i++) { Op o = mk(OP_malloc, 100 + i, (g.chance(0.6) ? 9 : 3) * MiB + g.below(4 * MiB)); o.hslot = 1; P0.ops.push_back(o); if (g.chance(0.4)) P0.ops.push_back(mk(OP_check_owner, (int)g.below(80))); }
@@ -2117,7 +2151,7 @@ static void fam_c17_misuse(G& g, Plan& p) {
     if (k < 25) P.ops.push_back(mk(OP_free, slot));
     else if (k < 30) P.ops.push_back(gen_realloc(g, slot, mix, 0, false));
     else if (k < 33) P.ops.push_back(mk(OP_collect, -1, g.below(2)));
-    else if (k < 41) { Op o = mk(kind == 0 ? OP_double_free : kind == 1 ? OP_overflow_byte : OP_corrupt_free_link, (kind == 1 && nt > 1 && g.chance(0.5)) ? 150 + (int)g.below(40) : slot, g.below(1000000)); if (kind == 0) o.b = g.pick<uint64_t>({0, 1, 1, 2, 2, 4, 4}); P.ops.push_back(o); }
+    else if (k < 41) { Op o = mk(kind == 0 ? OP_double_free : kind == 1 ? OP_overflow_byte : OP_corrupt_free_link, (kind == 1 && nt > 1 && g.chance(0.5)) ? 150 + (int)g.below(40) : slot, g.below(1000000)); if (kind == 0) o.b = g.pick<uint64_t>({0, 1, 1, 2, 2, 4, 4}); if (kind == 1) { o.b = g.pick<uint64_t>({1, 1, 1, 2, 4, 8, 8}); o.c = g.below(2); } P.ops.push_back(o); }
     else if (bigmix && g.chance(0.12)) { int bs = (int)g.below(150); P.ops.push_back(mk(OP_malloc, bs, gen_size(g, bigmix))); if (g.chance(0.6)) P.ops.push_back(mk(OP_overflow_byte, bs, g.below(1000000))); }
     else if (hugeover && i == n - 1) { P.ops.push_back(mk(OP_malloc, 149, 16 * MiB + g.below(24 * MiB))); P.ops.push_back(mk(OP_overflow_byte, 149, g.below(1000000))); }   // last: the run ends with known finding F25
     else P.ops.push_back(mk(g.chance(0.1) ? OP_zalloc : OP_malloc, slot, g.chance(0.12) ? 1 + g.below(7) : g.chance(0.7) ? cls[g.below(cls.size())] : gen_size(g, mix)));
